@@ -87,6 +87,10 @@ def run(rep):
             rep.violation('attribute value %r is not recovered by a standard XML parser from to_string()' % st, {'codepoints': s, 'raw': rec.get('attr_raw')})
         elif rec['attr_raw'] != ma_s:
             rep.violation('attribute value %r is emitted as %r, the escaping model says %r' % (st, rec['attr_raw'], ma_s), {'codepoints': s, 'correspondence': 'ET.tostring <-> Ser.escape_attr'}, found_input=False)
+    for label, rv, got, ok in out.get('values', []):
+        if not ok:
+            rep.violation('%s = %s is accepted, a standard parser finds %r in to_string(), not %r' % (label, rv, got, str(eval(rv))), {'position': label, 'value': rv, 'recovered': got})
+    rep.coverage['accepted_values_of_every_truthiness'] = len(out.get('values', []))
     for t in out['twins']:
         if not t['same']:
             rep.violation('to_string() calls interleaved with mutations change a later serialisation (scenario seed %d)' % t['seed'], {'scenario_seed': t['seed'], 'diff': t['diff']})
